@@ -272,11 +272,18 @@ def _pyins_original(name):
     return None
 
 
+def _pyins_modules():
+    import sys
+    return [mod for mname, mod in list(sys.modules.items())
+            if mod is not None and (mname == "pyins" or mname.startswith("pyins.")) and ".tests" not in mname]
+
+
 def _aliases(orig):
-    """(module, name) pairs of pyins modules whose global `name` IS `orig` (functions, classes and modules only)"""
+    """(module, name) pairs of pyins modules whose global `name` IS `orig` (functions, classes, modules, and float module
+    constants: `from .earth import A, E2` binds the very float object earth.A is bound to)"""
     import sys
     import types as _types
-    if orig is None or not (callable(orig) or isinstance(orig, _types.ModuleType)):
+    if orig is None or not (callable(orig) or isinstance(orig, (_types.ModuleType, float))):
         return []
     out = []
     for mname, mod in list(sys.modules.items()):
@@ -353,6 +360,7 @@ def patched(*patches):
     well-known library object of that name) is also rebound wherever a pyins module holds it under ANOTHER name, so the
     patch survives `from .util import to_180_range`, `from scipy.linalg import cholesky as chol`, `import numpy`."""
     import types as _types
+    import builtins as _builtins
     saved = []
     missing = object()
     try:
@@ -366,6 +374,14 @@ def patched(*patches):
                 saved.append((target, k, have, False))
                 setattr(target, k, v)
                 if isinstance(target, _types.ModuleType) and (getattr(target, "__name__", "") or "").startswith("pyins"):
+                    if have is missing and hasattr(_builtins, k):
+                        # a shadow of a builtin (len, range, min, max): helpers of the function under contract may live in any
+                        # pyins module (a body split into util._helper), so the shadow holds package-wide
+                        for mod in _pyins_modules():
+                            if mod is not target and k not in vars(mod):
+                                saved.append((mod, k, missing, False))
+                                setattr(mod, k, v)
+                        continue
                     orig = have if have is not missing else (_external_original(k) if _external_original(k) is not None else _pyins_original(k))
                     if orig is not missing and orig is not None and orig is not v:
                         for gk, sv in _module_stub_aliases(vars(target), orig, v).items():
@@ -386,7 +402,8 @@ def patched(*patches):
                                 continue
                             # the name is absent from the target: it is imported under another name there (alias in the target),
                             # or reached as an attribute of another pyins module (`_kernel.integrate`): that module's own binding
-                            if have is missing and mod is not target and getattr(orig, "__module__", None) != mod.__name__:
+                            if have is missing and mod is not target and getattr(orig, "__module__", None) != mod.__name__ \
+                                    and not (isinstance(orig, _types.ModuleType) and not (orig.__name__ or "").startswith("pyins")):
                                 continue
                             if getattr(orig, "__module__", None) == mod.__name__ and not isinstance(orig, _types.ModuleType):
                                 if mod is not target and have is not missing:
